@@ -2214,6 +2214,12 @@ void vm_execute_slice_string(vm * machine, bytecode * code)
 
     mem_ptr string = gc_get_string_ref(machine->collector, machine->stack[machine->sp - 1].addr);
     mem_ptr range = gc_get_vec_ref(machine->collector, machine->stack[machine->sp].addr);
+    if (string == nil_ptr || range == nil_ptr)
+    {
+        machine->running = VM_EXCEPTION;
+        machine->exception = EXCEPT_NIL_POINTER;
+        return;
+    }
 
     mem_ptr range_from_addr = gc_get_vec(machine->collector, range, 0);
     mem_ptr range_to_addr = gc_get_vec(machine->collector, range, 1);
